@@ -92,6 +92,7 @@ Definition tables_total : bool :=
   forallb (fun o => forallb (fun ca => known (snd ca)) (fst (snd o)) && known (snd (snd o))) gen_dec_optswitch &&
   forallb (fun nw => match snd nw with WUnknownWrapper _ => false | _ => true end) gen_dec_wrappers &&
   forallb (fun nr => match snd nr with RdUnknown _ => false | _ => true end) gen_dec_readers &&
+  forallb (fun np => match snd np with PsUnknown _ => false | _ => true end) gen_dec_parsers &&
   forallb (fun ka => known (snd ka)) gen_conv_fast.
 
 Theorem switch_total : tables_total = true.
@@ -101,7 +102,7 @@ Theorem switch_total_lookup : forall name s t, In (name, s) gen_dec_switch -> kn
 Proof.
   intros name s t Hin.
   pose proof switch_total as H. unfold tables_total in H.
-  do 4 (apply andb_prop in H; destruct H as [H _]).
+  do 5 (apply andb_prop in H; destruct H as [H _]).
   rewrite forallb_forall in H. specialize (H _ Hin). cbn [snd] in H.
   unfold switch_known in H. apply andb_prop in H. destruct H as [Hc Hd].
   unfold sw_lookup. destruct (assoc_tag (sw_cases s) t) as [a|] eqn:E; [|exact Hd].
@@ -164,7 +165,7 @@ Definition expected_wrappers : list (bstr * wrapper) :=
 Definition wrapper_eq_dec : forall a b : wrapper, {a = b} + {a <> b}.
 Proof. decide equality; apply bstr_eq_dec. Defined.
 Definition reader_eq_dec : forall a b : reader, {a = b} + {a <> b}.
-Proof. decide equality; try apply bstr_eq_dec; apply ikind_eq_dec. Defined.
+Proof. decide equality; try apply bstr_eq_dec; try apply ikind_eq_dec; apply N.eq_dec. Defined.
 
 Theorem wrappers_match_model :
   forall n w, In (n, w) expected_wrappers -> assoc gen_dec_wrappers n = Some w.
@@ -183,7 +184,21 @@ Definition expected_readers : list (bstr * reader) :=
   [("ReadInt", RdConv KInt "ReadInt64"); ("ReadInt8", RdConv KInt8 "ReadInt64"); ("ReadInt16", RdConv KInt16 "ReadInt64");
    ("ReadInt32", RdConv KInt32 "ReadInt64"); ("ReadInt64", RdPrimitive);
    ("ReadUint", RdConv KUint "ReadUint64"); ("ReadUint8", RdConv KUint8 "ReadUint64"); ("ReadUint16", RdConv KUint16 "ReadUint64");
-   ("ReadUint32", RdConv KUint32 "ReadUint64"); ("ReadUint64", RdPrimitive)].
+   ("ReadUint32", RdConv KUint32 "ReadUint64"); ("ReadUint64", RdPrimitive); ("readUint64", RdPrimitive);
+   (* the float readers: strconv.ParseFloat with the destination's own bit size (one rounding) *)
+   ("ReadFloat32", RdParseFloat 32); ("ReadFloat64", RdParseFloat 64)].
+
+(* the string parsers behind the 'u' / 's' arms and the converters: the model's [parse_str] and the
+   oracle functions pf32/pf64/pc64/pc128/bf/rat stand for exactly these library calls *)
+Definition expected_parsers : list (bstr * parser) :=
+  [("stringToBool", PsStrconv "ParseBool" 0 false);
+   ("stringToInt64", PsStrconv "ParseInt" 10 true); ("stringToUint64", PsStrconv "ParseUint" 10 true);
+   ("stringToFloat32", PsFloat 32); ("stringToFloat64", PsFloat 64);
+   ("stringToComplex64", PsComplex 64); ("stringToComplex128", PsComplex 128);
+   ("stringToBigInt", PsBig "Int" true); ("stringToBigFloat", PsBig "Float" false); ("stringToBigRat", PsBig "Rat" false)].
+
+Theorem parsers_match_model : gen_dec_parsers = expected_parsers.
+Proof. vm_compute. reflexivity. Qed.
 
 Theorem readers_match_model : gen_dec_readers = expected_readers.
 Proof. vm_compute. reflexivity. Qed.
